@@ -1831,6 +1831,9 @@ func kvContactBody(id, name, v string, bodyOrg *int64) []byte {
 		sl = append(sl, map[string]string{"channel_id": c.ChannelId, "slack_token": c.SlToken})
 	}
 	m := map[string]interface{}{"contact_name": name, "pager_duty": v, "slack": sl}
+	if em := kvContactEmail(v); len(em) > 0 {
+		m["email"] = em
+	}
 	if id != "" {
 		m["contact_id"] = id
 	}
@@ -1850,7 +1853,8 @@ func kvContactBody(id, name, v string, bodyOrg *int64) []byte {
 //   u<t>.<id>=<name>:<v> ProcessUpdateContactRequest, body without org_id    U…: body with another org's org_id
 //   d<t>.<id> ProcessDeleteContactRequest      l<t> GetAllContactPoints       R close + reopen siglens.db
 // The value v is a comma-separated list: PagerDuty = v, Slack = one {channel_id: part, slack_token: "tok-"+part}
-// per non-empty part.
+// per non-empty part, Email = one address part+"@kv.test" per part that starts with 'm' (the model's value is opaque:
+// the e-mail list is judged by the read-back audit, like the rest of the value).
 type kvContactObj struct {
 	name, v string
 }
@@ -1960,6 +1964,16 @@ func kvContactSlack(v string) []alertutils.SlackTokenConfig {
 	return out
 }
 
+func kvContactEmail(v string) []string {
+	var out []string
+	for _, p := range strings.Split(v, ",") {
+		if strings.HasPrefix(p, "m") {
+			out = append(out, p+"@kv.test")
+		}
+	}
+	return out
+}
+
 func kvContactErr(err error) string {
 	if err == nil {
 		return "ok"
@@ -1978,9 +1992,9 @@ func kvContactErr(err error) string {
 	return "err:" + strings.ReplaceAll(trunc(m, 200), " ", "_")
 }
 
-func kvContactShow(name, pager string, slack []string) string {
+func kvContactShow(name, pager string, slack, email []string) string {
 	sort.Strings(slack)
-	return fmt.Sprintf("name=%q pager=%q slack=[%s]", name, pager, strings.Join(slack, " "))
+	return fmt.Sprintf("name=%q pager=%q slack=[%s] email=%q", name, pager, strings.Join(slack, " "), append([]string{}, email...))
 }
 
 func (s *kvContact) shadowOf(t int) map[string]string {
@@ -1990,7 +2004,7 @@ func (s *kvContact) shadowOf(t int) map[string]string {
 		for _, c := range kvContactSlack(o.v) {
 			sl = append(sl, c.ChannelId+"/"+c.SlToken)
 		}
-		m[fmt.Sprintf("#%d", id)] = kvContactShow(o.name, o.v, sl)
+		m[fmt.Sprintf("#%d", id)] = kvContactShow(o.name, o.v, sl, kvContactEmail(o.v))
 	}
 	return m
 }
@@ -2011,7 +2025,7 @@ func (s *kvContact) readAll(t int) (map[string]string, error) {
 		if !ok {
 			key = "unknown id " + c.ContactId
 		}
-		m[key] = kvContactShow(c.ContactName, c.PagerDuty, sl)
+		m[key] = kvContactShow(c.ContactName, c.PagerDuty, sl, c.Email)
 	}
 	return m, nil
 }
@@ -2137,6 +2151,9 @@ func genContactLine(r *rand.Rand) string {
 		pool = append(pool, "")
 	}
 	vals := []string{"", "", "c1", "c1,c2", "c2", "ünï,c1", ",", "c3,,c4", "x y"}
+	if r.Intn(3) == 0 { // contacts with one or several e-mail addresses
+		vals = append(vals, "m1", "m1,m2", "c1,m3", "m\"q,m4,m5")
+	}
 	nt := []int{1, 2, 2, 3}[r.Intn(4)]
 	tperm := r.Perm(3)[:nt]
 	nops := 1 + r.Intn(30)
@@ -2194,20 +2211,31 @@ func genContactLine(r *rand.Rand) string {
 
 // ---------------------------------------------------------------- lookup files
 
-// kvLookup drives pkg/lookups through its HTTP handlers (multipart upload in an in-memory RequestCtx). The
-// handlers take no org id: one name space, tenant digit 0 only.
-//   c0.<name>=<content> UploadLookupFile   u0.… with overwrite=true   C0/U0: the uploaded file is a .csv.gz
-//   g0.<name> GetLookupFile   d0.<name> DeleteLookupFile   l0 GetAllLookupFiles
+// kvLookup drives pkg/lookups through its HTTP handlers (multipart upload in an in-memory RequestCtx), each request
+// for the org of its tenant digit (WITH patch c13-1 the handlers take the org id and every org has a directory of its
+// own; the handlers of a tree without the patch take no org id — they are called as they are, see kvLookupCall).
+//   c<t>.<name>=<content> UploadLookupFile   u<t>.… with overwrite=true   C<t>/U<t>: the uploaded file is a .csv.gz
+//   g<t>.<name> GetLookupFile   d<t>.<name> DeleteLookupFile   l<t> GetAllLookupFiles
 type kvLookup struct {
-	shadow map[string]string
-	owner  map[string]int // the tenant whose request stored the file (the handlers themselves know no tenant)
+	shadow [3]map[string]string
 }
 
-// sharedBetweenTenants: the lookup handlers take no org id and keep ONE directory: a request made for one org reads,
-// replaces or deletes what a request of another org stored (C13 / C20: one tenant's operations never disturb another's)
+// kvLookupCall: handler(ctx, org) — or handler(ctx) for the handlers that know no org
+func kvLookupCall(handler interface{}, ctx *fasthttp.RequestCtx, t int) {
+	callLookupHandler(handler, ctx, kvOrgs[t])
+}
+
+// sharedBetweenTenants: a request made for one org finds (reads, is refused because of, deletes) a file that only
+// ANOTHER org has stored (C13 / C20: one tenant's operations never disturb another's)
 func (s *kvLookup) sharedBetweenTenants(t int, name, what string) {
-	if ow, ok := s.owner[name]; ok && ow != t {
-		kvCurRun.fail("shared-between-tenants", fmt.Sprintf("%s by org %d touches lookup file %q, which org %d uploaded: lookup files have no tenant dimension", what, kvOrgs[t], name, kvOrgs[ow]))
+	if _, mine := s.shadow[t][name]; mine {
+		return
+	}
+	for ow := range s.shadow {
+		if _, ok := s.shadow[ow][name]; ok && ow != t {
+			kvCurRun.fail("shared-between-tenants", fmt.Sprintf("%s by org %d touches lookup file %q, which org %d uploaded and org %d did not: the lookup files of the orgs are not kept apart", what, kvOrgs[t], name, kvOrgs[ow], kvOrgs[t]))
+			return
+		}
 	}
 }
 
@@ -2251,25 +2279,19 @@ func (s *kvLookup) parse(tok string) (kvOp, bool) {
 }
 
 func (s *kvLookup) boot() error {
-	s.shadow, s.owner = map[string]string{}, map[string]int{}
+	for t := range s.shadow {
+		s.shadow[t] = map[string]string{}
+	}
 	return nil
 }
 func (s *kvLookup) restart() error { return nil } // nothing is held in memory
 
-func (s *kvLookup) shadowOf(t int) map[string]string {
-	if t != 0 {
-		return map[string]string{}
-	}
-	return s.shadow
-}
+func (s *kvLookup) shadowOf(t int) map[string]string { return s.shadow[t] }
 
 func (s *kvLookup) readAll(t int) (map[string]string, error) {
 	m := map[string]string{}
-	if t != 0 {
-		return m, nil
-	}
 	ctx := kvCtx(nil, nil)
-	lookups.GetAllLookupFiles(ctx)
+	kvLookupCall(lookups.GetAllLookupFiles, ctx, t)
 	if ctx.Response.StatusCode() != 200 {
 		return nil, fmt.Errorf("GetAllLookupFiles: status %d", ctx.Response.StatusCode())
 	}
@@ -2279,7 +2301,7 @@ func (s *kvLookup) readAll(t int) (map[string]string, error) {
 	}
 	for _, n := range names {
 		c := kvCtx(nil, map[string]string{"lookupFilename": n})
-		lookups.GetLookupFile(c)
+		kvLookupCall(lookups.GetLookupFile, c, t)
 		if c.Response.StatusCode() != 200 {
 			m[n] = fmt.Sprintf("listed but get answers %d", c.Response.StatusCode())
 			continue
@@ -2309,7 +2331,7 @@ func (s *kvLookup) apply(op kvOp) string {
 		ctx.Request.Header.SetMethod("POST")
 		ctx.Request.Header.SetContentType(w.FormDataContentType())
 		ctx.Request.SetBody(buf.Bytes())
-		lookups.UploadLookupFile(ctx)
+		kvLookupCall(lookups.UploadLookupFile, ctx, op.t)
 		body := string(ctx.Response.Body())
 		switch ctx.Response.StatusCode() {
 		case 200:
@@ -2318,11 +2340,10 @@ func (s *kvLookup) apply(op kvOp) string {
 				return "err:answer"
 			}
 			stored := strings.TrimPrefix(body, pre)
-			s.sharedBetweenTenants(op.t, stored, "an upload with overwrite")
-			s.shadow[stored] = op.v
-			s.owner[stored] = op.t
+			s.shadow[op.t][stored] = op.v
 			return "ok:" + kvHex(stored)
 		case 409:
+			s.sharedBetweenTenants(op.t, kvLookupStoredName(op.k, op.kind == 'C' || op.kind == 'U'), "an upload (refused: the file exists)")
 			return "ex"
 		case 400:
 			return "inv"
@@ -2330,7 +2351,7 @@ func (s *kvLookup) apply(op kvOp) string {
 		return fmt.Sprintf("err%d", ctx.Response.StatusCode())
 	case 'g':
 		ctx := kvCtx(nil, map[string]string{"lookupFilename": op.k})
-		lookups.GetLookupFile(ctx)
+		kvLookupCall(lookups.GetLookupFile, ctx, op.t)
 		switch ctx.Response.StatusCode() {
 		case 200:
 			s.sharedBetweenTenants(op.t, op.k, "a download")
@@ -2341,12 +2362,11 @@ func (s *kvLookup) apply(op kvOp) string {
 		return fmt.Sprintf("err%d", ctx.Response.StatusCode())
 	case 'd':
 		ctx := kvCtx(nil, map[string]string{"lookupFilename": op.k})
-		lookups.DeleteLookupFile(ctx)
+		kvLookupCall(lookups.DeleteLookupFile, ctx, op.t)
 		switch ctx.Response.StatusCode() {
 		case 200:
 			s.sharedBetweenTenants(op.t, op.k, "a delete")
-			delete(s.shadow, op.k)
-			delete(s.owner, op.k)
+			delete(s.shadow[op.t], op.k)
 			return "ok"
 		case 404:
 			return "nf"
@@ -2354,7 +2374,7 @@ func (s *kvLookup) apply(op kvOp) string {
 		return fmt.Sprintf("err%d", ctx.Response.StatusCode())
 	case 'l':
 		ctx := kvCtx(nil, nil)
-		lookups.GetAllLookupFiles(ctx)
+		kvLookupCall(lookups.GetAllLookupFiles, ctx, op.t)
 		var names []string
 		if ctx.Response.StatusCode() != 200 || json.Unmarshal(ctx.Response.Body(), &names) != nil {
 			return fmt.Sprintf("err%d", ctx.Response.StatusCode())
@@ -2367,6 +2387,18 @@ func (s *kvLookup) apply(op kvOp) string {
 		return "[" + kvSortedJoin(hs, ",") + "]"
 	}
 	return "bad-op"
+}
+
+// kvLookupStoredName: the file name an upload of `name` is stored under (".csv" / ".csv.gz" appended unless it is there)
+func kvLookupStoredName(name string, gz bool) string {
+	l := strings.ToLower(name)
+	if strings.HasSuffix(l, ".csv") || strings.HasSuffix(l, ".csv.gz") {
+		return name
+	}
+	if gz {
+		return name + ".csv.gz"
+	}
+	return name + ".csv"
 }
 
 func genLookupLine(r *rand.Rand) string {
@@ -2382,11 +2414,12 @@ func genLookupLine(r *rand.Rand) string {
 	contents := []string{"", "k,v\n1,2\n", "x", "ünï,1\n", "a,b\r\n", "\x00\x01\xff", "k\n" + strings.Repeat("row\n", 50)}
 	nops := 1 + r.Intn(30)
 	pR := []int{0, 5}[r.Intn(2)]
-	// one line in six is made by requests of two or three orgs (the handlers know no org: known finding
-	// kv/lookup/shared-between-tenants)
+	// one line in three is made by requests of two or three orgs (each org has a directory of its own; the names of the
+	// sub-directories of org 0's directory — the org ids — are asked for like file names now and then)
 	tn := []int{0}
-	if r.Intn(6) == 0 {
+	if r.Intn(3) == 0 {
 		tn = r.Perm(3)[:2+r.Intn(2)]
+		pool = append(pool, []string{"1", "7", "7.csv", "0"}[r.Intn(4)])
 	}
 	var stored []string
 	var ops []string
@@ -2713,6 +2746,10 @@ func (s *kvAlertDB) apply(op kvOp) string {
 				kvCurRun.tainted[ow], kvCurRun.tainted[op.t] = true, true
 			}
 		}
+		if s.owner(op.id) < 0 && kvAlertErr(err) != "nf" {
+			// (before patch c20-22) the update went on with the empty alert that GetAlert answered for an unknown id
+			kvCurRun.fail("unknown-alert-id-answered-200", fmt.Sprintf("update alert #%d (an id no alert has) requested by org %d is not refused as unknown: %s", op.id, org, kvAlertErr(err)))
+		}
 		return kvAlertErr(err)
 	case 'd':
 		_, err := kvRequest(alertsHandler.ProcessDeleteAlertRequest, org, []byte(fmt.Sprintf(`{"alert_id":%q}`, s.aref(op.id))), nil)
@@ -2738,7 +2775,9 @@ func (s *kvAlertDB) apply(op kvOp) string {
 		}
 		a := resp.Alert
 		if a.AlertId == "" {
-			return "-" // GetAlert of an unknown id answers an empty alert, not an error
+			// (before patch c20-22) GetAlert of an unknown id answered an empty alert, not an error
+			kvCurRun.fail("unknown-alert-id-answered-200", fmt.Sprintf("get alert #%d (an id no alert has) requested by org %d is answered 200 with an empty alert", op.id, org))
+			return "-"
 		}
 		if ow := s.owner(op.id); ow >= 0 && ow != op.t {
 			kvCurRun.fail("foreign-tenant-read", fmt.Sprintf("get alert #%d requested by org %d returns the alert of org %d", op.id, org, kvOrgs[ow]))
